@@ -108,6 +108,15 @@ def run(ctx):
                           "rounding call in get_timings", 2)
     # SDRAMModule.__init__ is evaluated symbolically with `get(name[, key])` replaced by an opaque datasheet entry Timing(get(name).ck, get(name).ns):
     # every TimingSettings field becomes a term over those entries, whatever helpers / local functions the source uses to build it
+    # only when evaluated on behalf of C03 (whose statement measures spacings with the phase positions included): the clock-count branch of the
+    # activate-to-activate minimums.  The two activates can sit on different command slots (the command phase of read mode and of write mode differ when
+    # rdphase != wrphase), so `cycles*ratio` DRAM clocks between them shrink by up to ratio-1; ceil(ck/ratio) alone does not cover that.
+    # tFAW has the same conversion but is not exposed: tFAWController re-opens two cycles late (registered count over a window that keeps an activate for
+    # tfaw cycles), which covers the ratio-1 clocks (shown by /verif/findings/F15b_tfaw_ck_phase_not_reachable.py); tCCD / tWTR / tRFC pairs reuse a phase or pass
+    # a full turnaround cycle.  Only tRRD - an exact counter - is hit.
+    obA = ctx.ob("C16.ckphase", "the activate-to-activate minimum given in clocks (tRRD) is converted with the (ratio-1)-clock phase margin", 2) \
+        if getattr(ctx, "shared_for", None) == "C03" else None
+    ck_unsafe = {}
     period_key = "/(1000000000.0, clk_freq)"
     seen_bad = set()
     mrel = ctx.repo.module(MOD).rel()
@@ -209,6 +218,14 @@ def run(ctx):
             ckdiv = find_sub(T, lambda x: isinstance(x, Op) and x.op == "/" and any(a_ in support(x.args[0]) for a_ in ck_atoms))
             if ckdiv is None or not (lin_eq(ckdiv.args[0], ck_sum) and isinstance(ckdiv.args[1], Const) and ckdiv.args[1].v == denom):
                 ob1.refute("%s@%s:ck" % (f, rate), "%s: clock count converted as %s, expected (datasheet clocks)/%d" % (f, key(ckdiv) if ckdiv else None, denom), (mrel, init_line))
+            if obA is not None and f in ("tRRD",) and denom > 1 and ckdiv is not None:
+                extra = lin(ckdiv.args[0])
+                cks = ck_sum if isinstance(ck_sum, Lin) else lin(ck_sum)
+                dlt = (extra - cks) if (extra is not None and cks is not None) else None
+                okp = dlt is not None and dlt.is_const() and dlt.constval() >= denom - 1
+                obA.instance("%s at rate %s: clock-count numerator" % (f, rate), {"numerator": key(ckdiv.args[0]), "needs": "clocks + %d" % (denom - 1)}, nontrivial=True)
+                if not okp:
+                    ck_unsafe.setdefault(f, []).append(rate)
             if div is None or key(div.args[1]) != period_key:
                 ob1.refute("%s@%s:period" % (f, rate), "%s: nanoseconds divided by %s, expected 1e9/clk_freq" % (f, key(div.args[1]) if div else None), (mrel, init_line))
                 continue
@@ -223,6 +240,11 @@ def run(ctx):
                 seen_bad.add(("margin", rate, key(div.args[0]).replace("get(%s)" % f, "get(<f>)")))
                 ob2.refute("%s@%s:margin" % (f, rate), "%s at rate %s: numerator is %s, expected ns + (1 - 1/%d)*period (the two commands "
                            "can sit on the least favourable phases)" % (f, rate, key(div.args[0]), denom), (mrel, init_line))
+    if obA is not None:
+        for f_, rates_ in sorted(ck_unsafe.items()):
+            obA.refute("ck-no-phase-margin:%s" % f_, "%s: a datasheet minimum given in clocks is converted as ceil(clocks/ratio) at rates %s, without the ratio-1 clocks of "
+                       "phase margin the nanosecond branch gets: two activates issued on different command slots (read-mode and write-mode command phase) are up to ratio-1 "
+                       "DRAM clocks closer than cycles*ratio" % (f_, rates_), (mrel, init_line))
     try:
         other = Obj("Timing"); other.name = "other"; other.kind = "param"
         r, el = eval_method(ctx.repo, MOD, "Timing", "__add__", [other])
